@@ -360,44 +360,55 @@ def rule_swap(ctx):
     f = ctx.func(COL, "Collocator.spatial_search")
     flow = Flow(f)
     lat1, lon1, lat2, lon2 = f.params[1:5]
-    chooser = None
-    for st in flow.stmts:
-        if isinstance(st, ast.If) and len(st.body) >= 2 and st.orelse and all(isinstance(s, ast.Assign) for s in st.body + st.orelse):
-            chooser = st
-            break
-    if chooser is None:
-        raise AnalysisError("spatial_search: build/query choice not found")
-    cond = norm(chooser.test)
-
-    def arm(stmts):
-        return {norm(s.targets[0]): norm(s.value) for s in stmts}
-    t, e = arm(chooser.body), arm(chooser.orelse)
+    chs = [st for st in flow.stmts if isinstance(st, ast.Assign) and isinstance(st.targets[0], ast.Name) and calls_in(st.value, "_choose_points_to_build_index")]
+    if len(chs) != 1:
+        raise AnalysisError("spatial_search: the choice of the index side is not bound to a name")
+    flag = chs[0].targets[0].id
     bq = calls_in(f.node, "_build_spatial_index")
     qq = [c for c in calls_in(f.node, "query") if "index" in norm(c.func)]
-    if not bq or not qq:
+    if len(bq) != 1 or len(qq) != 1:
         raise AnalysisError("spatial_search: index build / query calls not found")
-    bname = norm(bq[0].args[0].value) if isinstance(bq[0].args[0], ast.Starred) else norm(bq[0].args[0])
-    qname = norm(qq[0].args[0].value) if isinstance(qq[0].args[0], ast.Starred) else norm(qq[0].args[0])
-    prim = "(%s, %s)" % (lat1, lon1)
-    sec = "(%s, %s)" % (lat2, lon2)
-    ok = t.get(bname) == prim and t.get(qname) == sec and e.get(bname) == sec and e.get(qname) == prim
-    ctx.ob("Collocator.spatial_search.roles", ok, "if %s: %s else: %s; build=%s query=%s" % (cond, t, e, bname, qname),
-           "if <index with primary>: build from (lat1, lon1), query with (lat2, lon2); else the other way round", node=chooser, func=f)
-    # the condition equals the value stored in self.index_with_primary / returned by the chooser
+
+    def positional(call, n=2):
+        out = []
+        for a_ in call.args:
+            if isinstance(a_, ast.Starred):
+                for k_ in range(n):
+                    e_ = ast.copy_location(ast.Subscript(value=a_.value, slice=ast.Constant(value=k_), ctx=ast.Load()), a_)
+                    ast.fix_missing_locations(e_)
+                    out.append(e_)
+            else:
+                out.append(a_)
+        return out[:n]
+    got = {}
+    for v in (True, False):
+        assume = {flag: v, "self.index_with_primary": v}
+        got[v] = ([norm(flow.resolve_under(a_, assume, at=bq[0], stop=tuple(f.params))) for a_ in positional(bq[0])],
+                  [norm(flow.resolve_under(a_, assume, at=qq[0], stop=tuple(f.params))) for a_ in positional(qq[0])])
+    ok = got[True] == ([lat1, lon1], [lat2, lon2]) and got[False] == ([lat2, lon2], [lat1, lon1])
+    cond = flag
+    ctx.ob("Collocator.spatial_search.roles", ok, "index with primary: build%s query%s; otherwise: build%s query%s" % (got[True] + got[False]),
+           "if <index with primary>: build from (lat1, lon1), query with (lat2, lon2); else the other way round", node=bq[0], func=f)
     # swap back
     swaps = [st for st in flow.stmts if isinstance(st, ast.Assign) and norm(st) .replace(" ", "") in
-             ("pairs[[0,1]]=pairs[[1,0]]", "pairs[[1,0]]=pairs[[0,1]]")]
+             ("pairs[[0,1]]=pairs[[1,0]]", "pairs[[1,0]]=pairs[[0,1]]", "pairs=pairs[[1,0]]", "pairs=pairs[[1,0],:]", "pairs=pairs[::-1]")]
     oksw = False
     fact = "no row exchange found"
     if swaps:
         s = swaps[0]
-        g = parent(s)
-        fact = "row exchange under: %s" % (norm(g.test) if isinstance(g, ast.If) else "unconditional")
-        oksw = isinstance(g, ast.If) and s in g.body and norm(g.test) == "not %s" % cond and not g.orelse
-        # on every path from the swap to a return of pairs, and every return of query results passes the test
+        live_t = flow.live_under(s, {flag: True, "self.index_with_primary": True})
+        live_f = flow.live_under(s, {flag: False, "self.index_with_primary": False})
+        fact = "row exchange reached with the index on the primary: %s; on the secondary: %s" % (live_t, live_f)
+        oksw = (not live_t) and live_f
+        # every return of found pairs that can be reached with the index on the secondary passes the exchange
         rets = [r for r in flow.stmts if isinstance(r, ast.Return) and "pairs" in norm(r.value) and "no_pairs" not in norm(r.value)]
-        gn = set(flow.cfg.nodes(g)) if isinstance(g, ast.If) else set()
-        oksw = oksw and all(flow.cfg.dominated_by(n, gn) for r in rets for n in flow.cfg.nodes(r)) and bool(rets)
+        rets_f = [r for r in rets if flow.live_under(r, {flag: False, "self.index_with_primary": False})]
+        from ..flow import passes_before
+        af = {flag: False, "self.index_with_primary": False}
+        oksw = oksw and bool(rets_f) and all(passes_before(flow, s, r, af) for r in rets_f)
+    else:
+        if not any("[[" in norm(st) for st in flow.stmts if isinstance(st, ast.Assign)) and not any(calls_in(st, ("flip", "flipud", "roll")) for st in flow.stmts):
+            pass
     ctx.ob("Collocator.spatial_search.swap", oksw, fact,
            "`if not <index with primary>: pairs[[0, 1]] = pairs[[1, 0]]` before every return of found pairs (GeoIndex row 0 = build side)",
            node=swaps[0] if swaps else f.node, func=f)
@@ -408,7 +419,7 @@ def rule_swap(ctx):
           and "size" in norm(st.value)]
     ex = [st for st in bflow.stmts if isinstance(st, ast.If) and len(st.body) == 1 and isinstance(st.body[0], ast.Assign)
           and isinstance(st.body[0].targets[0], ast.Tuple) and isinstance(st.body[0].value, ast.Tuple)]
-    back = [st for st in bflow.stmts if isinstance(st, ast.Assign) and norm(st).replace(" ", "") in ("pairs[[0,1]]=pairs[[1,0]]", "pairs[[1,0]]=pairs[[0,1]]")]
+    back = [st for st in bflow.stmts if isinstance(st, ast.Assign) and norm(st).replace(" ", "") in ("pairs[[0,1]]=pairs[[1,0]]", "pairs[[1,0]]=pairs[[0,1]]", "pairs=pairs[[1,0]]", "pairs=pairs[[1,0],:]", "pairs=pairs[::-1]")]
     okb = False
     fact = "swap flag / exchange / swap-back: %d/%d/%d" % (len(sw), len(ex), len(back))
     if sw and ex and back:
